@@ -25,7 +25,7 @@ def crossings(rhomax, lo=100, hi=1300):
     return _CROSS[key]
 
 
-def gpo_cfgs(tier, base_id, algos=("GPO", "PCT", "VPCT"), patterns=("g", "neg", "tied", "peak")):
+def gpo_cfgs(tier, base_id, algos=("GPO", "PCT", "VPCT"), patterns=("g", "neg", "tied", "peak", "decay", "decay")):
     rnd = random.Random(C.seed() + 31)
     cfgs = []
     i = base_id
@@ -47,7 +47,7 @@ def gpo_cfgs(tier, base_id, algos=("GPO", "PCT", "VPCT"), patterns=("g", "neg", 
             box = rnd.choice([b for b in PC.BOXES if len(b) == D])
             i += 1
             T = n if rnd.random() < 0.8 else rnd.randint(2, n)
-            cfgs.append({"id": i, "algo": algo, "kind": kind, "K": Kk, "D": D, "box": box, "n": n, "T": T, "prm": {"rhomax": rhomax, "numax": rnd.choice([1, 1.0, 0.5, 2.5]), "base": rnd.choice(["T_HOO", "HCT", "VHCT"])}, "pattern": rnd.choice(patterns), "seed": rnd.randrange(1 << 30)})
+            cfgs.append({"id": i, "algo": algo, "kind": kind, "K": Kk, "D": D, "box": box, "n": n, "T": T, "prm": {"rhomax": rhomax, "numax": rnd.choice([1, 1.0, 0.5, 2.5]), "base": rnd.choice(["T_HOO", "HCT", "VHCT"])}, "pattern": rnd.choice(patterns), "seed": rnd.randrange(1 << 30), "rtype": [None, "f32", "f64", "i64", "int", None][rep % 6]})
     return cfgs
 
 
@@ -68,7 +68,7 @@ def poo_cfgs(tier, base_id, patterns=("g", "neg", "tied", "peak")):
         box = rnd.choice([b for b in PC.BOXES if len(b) == D])
         i += 1
         q = sorted(rnd.sample(range(n), 3)) if rep % 3 == 0 else []
-        cfgs.append({"id": i, "algo": "POO", "kind": kind, "K": Kk, "D": D, "box": box, "n": n, "T": n, "prm": {"rhomax": rhomax, "numax": rnd.choice([1, 0.5, 2.5]), "base": rnd.choice(["T_HOO", "HCT", "VHCT"])}, "pattern": rnd.choice(patterns), "seed": rnd.randrange(1 << 30), "queries": q, "midq": sorted(rnd.sample(range(n), 4)) if rep % 4 == 1 else []})
+        cfgs.append({"id": i, "algo": "POO", "kind": kind, "K": Kk, "D": D, "box": box, "n": n, "T": n, "prm": {"rhomax": rhomax, "numax": rnd.choice([1, 0.5, 2.5]), "base": rnd.choice(["T_HOO", "HCT", "VHCT"])}, "pattern": rnd.choice(patterns), "seed": rnd.randrange(1 << 30), "queries": q, "midq": sorted(rnd.sample(range(n), 4)) if rep % 4 == 1 else [], "rtype": [None, "f32", "f64", "i64", "int", None][rep % 6]})
     return cfgs
 
 
